@@ -76,6 +76,8 @@ def strategy(tier):
                 'dbyte': st.integers(0, 255),
                 'tailcut': st.integers(0, 14),
                 'range': st.tuples(st.integers(0, 8), st.integers(0, 8)).map(list),
+                # the source is copied while it has a transaction between vote and finish
+                'inflight': st.booleans(),
             })
         return st.sampled_from(kinds).flatmap(prog)
     plain = st.sampled_from(['copy', 'copy', 'recover', 'damage', 'damage', 'damage']).flatmap(build)
@@ -257,7 +259,20 @@ def _execute(case):
             d2 = newdir()
             dst = FileStorage(os.path.join(d2, 'Copy.fs'))
             try:
-                dst.copyTransactionsFrom(r.storage)
+                voted = None
+                if case.get('inflight') and kind == 'fs':
+                    from ZODB.Connection import TransactionMetaData
+                    from vlib.records import make_record
+                    voted = TransactionMetaData(user='v', description='voted, not finished, while the copy runs')
+                    r.storage.tpc_begin(voted)
+                    r.storage.store(r.storage.new_oid(), b'\0' * 8, make_record(990, [], 30), '', voted)
+                    r.storage.tpc_vote(voted)
+                    out.label('source-has-voted-transaction')
+                try:
+                    dst.copyTransactionsFrom(r.storage)
+                finally:
+                    if voted is not None:
+                        r.storage.tpc_abort(voted)
                 compare(r.storage, dst, caps - {'len-exact'}, out, 'copyTransactionsFrom(%s)' % kind)
                 if out.failures:
                     return out
